@@ -77,6 +77,10 @@ def rank_activities(draw, rank: int, epoch: int, weights=(5, 3, 2, 1), max_n: in
         corr += 1
         events.append(activity(name, rank, draw(st.sampled_from(streams)), epoch + a, d,
                                corr if draw(st.integers(0, 4)) else None))
+    if draw(st.integers(0, 5)) == 0:
+        # one activity three orders of magnitude longer than the rest: the others' shares fall below the rounding of percentages
+        acts = [e for e in events if e.get("ph") == "X" and "stream" in e.get("args", {})]
+        draw(st.sampled_from(acts))["dur"] += draw(st.sampled_from([12_000, 3_000, 40_000]))
     if draw(st.integers(0, 3)) == 0:
         events.append({"ph": "i", "s": "g", "name": "Iteration Start: PyTorch Profiler", "pid": "Traces", "tid": "Trace PyTorch Profiler",
                        "ts": epoch})
@@ -91,10 +95,22 @@ def interval_case(draw, weights=(5, 3, 2, 1), max_ranks: int = 3, max_n: int = 1
     epoch = draw(st.sampled_from(EPOCHS))
     ranks = [draw(rank_activities(r, epoch + (draw(st.integers(0, 20)) if r else 0), weights, max_n, min_n, force_comm))
              for r in range(nranks)]
+    renumber_ranks(draw, ranks)
     from hv.hta_io import prelude_strategy
 
     return {"ranks": ranks, "fmt": draw(st.sampled_from(["json", "gz"])), "mp": draw(st.integers(0, 5)) == 0,
             "prelude": draw(prelude_strategy())}
+
+
+RANK_ID_PATTERNS = [None, None, None, [1, 2, 3, 4], [3, 0, 7, 1], [2, 1, 0, 5]]
+
+
+def renumber_ranks(draw, ranks: List[Dict[str, Any]]) -> None:
+    """The ranks a user loads need not be 0..n-1 (a subset of a job's ranks, in any dict order)."""
+    ids = draw(st.sampled_from(RANK_ID_PATTERNS))
+    if ids is not None:
+        for rd, new in zip(ranks, ids):
+            rd["rank"] = new
 
 
 def device_intervals(events: List[Dict[str, Any]]):
